@@ -48,7 +48,7 @@ def quote(sel: bytes, safe: str = "/") -> str:
 
 
 def render(view: str, selector: bytes, query: typing.Optional[bytes] = None,
-           prequoted: bool = False) -> typing.Tuple[bytes, bool]:
+           prequoted: bool = False, minimal_query: bool = False) -> typing.Tuple[bytes, bool]:
     """-> (request bytes, tls).  `selector` is the raw selector bytes (starting with
     '/'); URL protocols percent-encode it unless prequoted."""
     family, tls = VIEWS[view]
@@ -75,7 +75,9 @@ def render(view: str, selector: bytes, query: typing.Optional[bytes] = None,
     if family == "gemini":
         url = "gemini://%s%s" % (HOST, path)
         if query is not None:
-            url += "?" + urllib.parse.quote(query)
+            # minimal_query: a client that escapes only what RFC 3986 forbids in a query (sub-delims such as
+            # '+', '&', '=' and ':' '@' '/' '?' travel as they are)
+            url += "?" + urllib.parse.quote(query, safe="!$&'()*+,;=:@/?" if minimal_query else "/")
         return url.encode("latin-1") + b"\r\n", True
     if family == "spartan":
         body = query or b""
